@@ -47,7 +47,7 @@ CONSTANTS
   RecMax      \* steps after which deeprec overflows the stack (< B)
 
 DevNames == {"PcallCatchesTimeout", "CoroutineNoHook", "HookControlExported", "NestedInvokeResetsHook"}
-Limit0 == 1          \* configured limit (clock granules); Start = 0, deadline D = 1
+Limit0 == 1          \* configured limit (clock granules); Start = 0, deadline D = 1; one granule stands for any configured limit in (0, 1] s, fractions included (harness limit_of)
 Big == 9             \* a limit that does not expire within the horizon (59 s / 60 s)
 Horizon == 3
 D == Limit0
